@@ -214,7 +214,7 @@ def drive(case, monitors, learner_cls=None, step_limit=10 ** 7, wall_s=600, use_
                         budget.note()
                     hub.phase = "idle"
                     ctx.points.append(copy.deepcopy(p) if isinstance(p, (list, tuple)) else p)
-                    entry = {"i": i, "t": t, "point_obj": p, "point": ctx.points[-1], "cell": hub.owner(p),
+                    entry = {"i": i, "t": t, "point_obj": p, "point": ctx.points[-1], "cell": hub.owner_or_none(p),
                              "reward": None}
                     ctx.ledger.append(entry)
                     for m in monitors:
